@@ -160,6 +160,8 @@ mut("C07 N: reader one() through a local", [(RNG, "        self.cache[0].one()",
 # ---- the matrix zero constructors (abstracted by the storage model) are decided from their bodies ----
 mut("C15 new_zeros fills with ones", [(MAT, "data: SmallVec::from_elem(self.data[0].zero(), dim * dim),", "data: SmallVec::from_elem(self.data[0].one(), dim * dim),")], C15="C15-", C08="C08-c", C16="C16-e")
 mut("C15 new_zeros_from_num allocates dim + dim", [(MAT, "data: SmallVec::from_elem(builder.zero(), dim * dim),", "data: SmallVec::from_elem(builder.zero(), dim + dim),")], C15="C15-", C10="C10-d")
+# ---- an undecidable statement that contains a value-returning exit must not be skipped ----
+mut("engine: early Ok return behind a test outside the model", [(MAT, "        // start cholesky decomposition", "        if (0..self.dim).rev().all(|i| self[(i, i)] == self.zero()) {\n            return Ok(DecompositionResult { determinant: self.zero(), inverse: self.clone(), q_transposed_inverse: self.clone(), q_transposed: self.clone() });\n        }\n        // start cholesky decomposition")], C15="C15-", C08="C08-c", C10="C10-")
 # ---- C15-e series, decided at matrix level ----
 _PUSH_OLD = """            let last_power_of_n = powers_of_n
                 .last()
